@@ -34,6 +34,29 @@ func runC03Keys(c *Ctx, w *ATWorld) {
 		if len(cs.Rows) < 2 && r.Chance(80) {
 			cs.Rows = genRows(r, cs.Schema, 2+r.Intn(4))
 		}
+		if i%12 == 0 {
+			// directed: a character key whose text ends with the separators of the lock-key syntax, touched by
+			// each statement form on its own (the key is then the last thing in the registration text)
+			sc := &ATSchema{Table: w.NewTableName("ck"), Cols: []ATCol{{Name: "id", Typ: 's'}, {Name: "c1", Typ: 'i'}}, PK: []int{0}}
+			key := []string{"k:", "urn:doc:", "a;", "x,"}[(i/12)%4]
+			cs.Schema = sc
+			cs.Rows = [][]ATVal{{{K: 's', S: "plain"}, {K: 'i', I: 1}}, {{K: 's', S: key}, {K: 'i', I: 2}}}
+			where := &ATCond{Op: "cmp:e", E: []*ATExpr{{K: 'c', Col: 0}, {K: 'a', Val: ATVal{K: 's', S: key}}}}
+			var st *ATStmt
+			switch (i / 48) % 3 {
+			case 0:
+				st = &ATStmt{Kind: 'U', Sets: []ATSet{{Col: 1, Plus: -1, E: &ATExpr{K: 'l', Val: ATVal{K: 'i', I: 9}}}}, Where: where}
+			case 1:
+				st = &ATStmt{Kind: 'D', Where: where}
+			default:
+				cs.Rows = cs.Rows[:1]
+				st = &ATStmt{Kind: 'X', Rows: [][]*ATExpr{{{K: 'a', Val: ATVal{K: 's', S: key}}, {K: 'l', Val: ATVal{K: 'i', I: 3}}}}}
+			}
+			if strings.ContainsAny(key, ";,") {
+				st.Classes = append(st.Classes, "lock_key_separator_in_value")
+			}
+			cs.Locals = []ATLocalTx{{Stmts: []*ATStmt{st}}}
+		}
 		cs.Classes = nil
 		for _, st := range cs.Locals[0].Stmts {
 			cs.Classes = append(cs.Classes, st.Classes...)
